@@ -12,10 +12,10 @@ package main
 
 import (
 	"context"
-	"net/http"
 	"encoding/json"
 	"flag"
 	"fmt"
+	"net/http"
 	"os"
 	"runtime/debug"
 	"strings"
@@ -25,6 +25,7 @@ import (
 	"github.com/spf13/afero"
 	"go.uber.org/zap"
 
+	phttpimport "github.com/yandex/pandora/components/phttp/import"
 	grpcammo "github.com/yandex/pandora/components/providers/grpc"
 	"github.com/yandex/pandora/components/providers/grpc/grpcjson"
 	httpprov "github.com/yandex/pandora/components/providers/http"
@@ -63,6 +64,8 @@ func malformedChild(args []string) {
 	mfFS = afero.NewMemMapFs()
 	coreimport.Import(mfFS)
 	scnimport.Import(mfFS)
+	phttpimport.Import(mfFS)
+	zapExitToPanic() // log.Fatal of cli.readConfig is observed in-process (confdecode_rec.go)
 
 	var jobs []mfJob
 	for _, m := range vt.ReadNDJSON(*jobsPath) {
@@ -102,7 +105,7 @@ func malformedChild(args []string) {
 			}
 		}
 		if hung {
-			ln = mfLine{K: j.K, C: j.C, Format: j.Fmt, Mode: j.Mode, Seed: j.Seed, Evs: []mfEvent{{"Hang", fmt.Sprintf("no return within %v, twice", mfHangWait)}}, Res: "hang"}
+			ln = mfLine{K: j.K, C: j.C, Format: j.Fmt, Mode: j.Mode, Seed: j.Seed, EC: j.EC, Obs: mfHangObs(j), Evs: []mfEvent{{"Hang", fmt.Sprintf("no return within %v, twice", mfHangWait)}}, Res: "hang"}
 			emit(ln)
 			f.Close()
 			os.Exit(4)
@@ -110,6 +113,13 @@ func malformedChild(args []string) {
 		emit(ln)
 	}
 	f.Close()
+}
+
+func mfHangObs(j mfJob) *mfEditObs {
+	if j.K != "edit" {
+		return nil
+	}
+	return &mfEditObs{Res: "hang", InvalidAt: []int{}}
 }
 
 func machinery(format string, a ...interface{}) {
@@ -129,6 +139,8 @@ func mfRunJob(j mfJob) mfLine {
 		return mfRunDescCase(*j.C)
 	case "fuzz":
 		return mfRunFuzz(j)
+	case "edit":
+		return mfRunEdit(*j.EC)
 	}
 	machinery("unknown job kind %q", j.K)
 	return mfLine{}
@@ -143,7 +155,7 @@ type mfDelivery struct {
 	rawURI                         string
 	Invalid                        bool
 	keep                           *http.Request // the built request, looked at again when the whole file has been read
-	Raw                            string // whole projection (fuzz: compared for equality with the reference run)
+	Raw                            string        // whole projection (fuzz: compared for equality with the reference run)
 }
 
 type mfRunResult struct {
@@ -295,6 +307,10 @@ func mfHTTPProviderH(format, mode string, data []byte, headers []string) func() 
 }
 
 func mfHTTPProviderHP(format, mode string, data []byte, headers []string, passes int) func() (core.Provider, error) {
+	return mfHTTPProviderHPL(format, mode, data, headers, passes, 0)
+}
+
+func mfHTTPProviderHPL(format, mode string, data []byte, headers []string, passes, limit int) func() (core.Provider, error) {
 	return func() (core.Provider, error) {
 		fs := afero.NewMemMapFs()
 		if err := afero.WriteFile(fs, "/ammo", data, 0o644); err != nil {
@@ -304,7 +320,7 @@ func mfHTTPProviderHP(format, mode string, data []byte, headers []string, passes
 		if format == "jsonarray" {
 			dec = httpconf.DecoderJSONLine
 		}
-		conf := httpconf.Config{Decoder: dec, File: "/ammo", Passes: uint(passes), Preload: mode == "preload",
+		conf := httpconf.Config{Decoder: dec, File: "/ammo", Passes: uint(passes), Limit: uint(limit), Preload: mode == "preload",
 			ContinueOnError: mode == "continue", Headers: headers}
 		return httpprov.NewProvider(fs, conf)
 	}
@@ -315,24 +331,36 @@ func mfGRPCProvider(mode string, data []byte) func() (core.Provider, error) {
 }
 
 func mfGRPCProviderP(mode string, data []byte, passes int) func() (core.Provider, error) {
+	return mfGRPCProviderPL(mode, data, passes, 0)
+}
+
+func mfGRPCProviderPL(mode string, data []byte, passes, limit int) func() (core.Provider, error) {
 	return func() (core.Provider, error) {
 		fs := afero.NewMemMapFs()
 		if err := afero.WriteFile(fs, "/ammo", data, 0o644); err != nil {
 			machinery("%v", err)
 		}
-		return grpcjson.NewProvider(fs, grpcjson.Config{File: "/ammo", Passes: passes, ContinueOnError: mode == "continue"}), nil
+		return grpcjson.NewProvider(fs, grpcjson.Config{File: "/ammo", Passes: passes, Limit: limit, ContinueOnError: mode == "continue"}), nil
 	}
 }
 
 // file passes requested from the provider (Malformed!NPasses)
 func mfPasses(c mfCase) int {
 	switch c.Cls {
-	case "cut":
+	case "cut", "rerun":
 		return vt.Int(c.Arg[1])
 	case "long":
 		return vt.Int(c.Arg[2])
 	}
 	return 1
+}
+
+// delivery limit requested from the provider (Malformed!Limit)
+func mfLimit(c mfCase) int {
+	if c.Cls == "rerun" {
+		return vt.Int(c.Arg[2])
+	}
+	return 0
 }
 
 func mfHeadline(req *http.Request) string {
@@ -348,9 +376,9 @@ func mfRunAmmoCase(c mfCase) mfLine {
 	passes := mfPasses(c)
 	var r mfRunResult
 	if c.Format == "grpcjson" {
-		r = mfRunProvider(mfGRPCProviderP(c.Mode, data, passes), mfProjectGRPC, 0)
+		r = mfRunProvider(mfGRPCProviderPL(c.Mode, data, passes, mfLimit(c)), mfProjectGRPC, 0)
 	} else {
-		r = mfRunProvider(mfHTTPProviderHP(c.Format, c.Mode, data, mfConfigHeaders(c.Cls), passes), mfProjectHTTP, 0)
+		r = mfRunProvider(mfHTTPProviderHPL(c.Format, c.Mode, data, mfConfigHeaders(c.Cls), passes, mfLimit(c)), mfProjectHTTP, 0)
 	}
 	byTag := map[string]mfEntry{}
 	if c.Cls == "long" {
